@@ -532,6 +532,61 @@ def find_pair(prog, bad_merge, okw, ref):
     return None, None, None
 
 
+def minimise_noncommuting(prog, merge, okw):
+    """Greedy reduction of a non-commuting program: drop whole actors, then single calls, while SOME merge of what is
+    left still differs from its canonical order (searched among the adversarial merges)."""
+    def differs(p):
+        can = canonical(p)
+        ref = outcome(p, can, okw)
+        if isinstance(ref, dict) and "raised" in ref:
+            return None
+        K = len(p["actors"])
+        if K < 2:
+            return None
+        cands = []
+        rev = []
+        for i in reversed(range(K)):
+            rev += [i] * len(p["actors"][i]["calls"])
+        cands.append(rev)
+        for i in range(K):
+            cands.append([i] * len(p["actors"][i]["calls"]) + [j for j in can if j != i])
+            cands.append([j for j in can if j != i] + [i] * len(p["actors"][i]["calls"]))
+        for m in cands:
+            out = outcome(p, m, okw)
+            if p["mode"] != "main" and isinstance(out, dict) and "raised" in out:
+                continue
+            if out != ref:
+                return m
+        return None
+
+    cur = {**prog, "actors": [dict(a) for a in prog["actors"]]}
+    best = differs(cur) or merge
+    changed = True
+    while changed:
+        changed = False
+        for i in range(len(cur["actors"])):
+            trial = {**cur, "actors": cur["actors"][:i] + cur["actors"][i + 1:]}
+            m = differs(trial)
+            if m is not None:
+                cur, best, changed = trial, m, True
+                break
+        if changed:
+            continue
+        for i, a in enumerate(cur["actors"]):
+            if len(a["calls"]) <= 1:
+                continue
+            for k in range(len(a["calls"])):
+                na = {"group": a["group"], "calls": a["calls"][:k] + a["calls"][k + 1:]}
+                trial = {**cur, "actors": cur["actors"][:i] + [na] + cur["actors"][i + 1:]}
+                m = differs(trial)
+                if m is not None:
+                    cur, best, changed = trial, m, True
+                    break
+            if changed:
+                break
+    return cur, best
+
+
 # ------------------------------------------------------------------ riders
 PAGED_LIMIT = ["LIMIT", "OFFSET"]
 PAGED_FETCH = ["OFFSET", "FETCH NEXT"]
@@ -830,10 +885,25 @@ def one_run(seed, run, force_config=None, overrides=None):
             pair, before, after = find_pair(prog, m, okw, ref)
             pname = "~".join(pair) if pair else "unlocated"
             d = obs.diff(out, ref) if isinstance(out, dict) and isinstance(ref, dict) else ["outcome"]
-            add(f"{PROP}:noncommuting:{pname}", {"kind": "noncommuting", "merge": m, "canonical": can, "pair": pair,
-                                                  "mode": prog["mode"], "differs_on": d[:6],
-                                                  "observed": {k: out.get(k) for k in d[:2]} if isinstance(out, dict) else out,
-                                                  "expected": {k: ref.get(k) for k in d[:2]}})
+            sig = f"{PROP}:noncommuting:{pname}"
+            payload = {"kind": "noncommuting", "merge": m, "canonical": can, "pair": pair,
+                       "mode": prog["mode"], "differs_on": d[:6],
+                       "observed": {k: out.get(k) for k in d[:2]} if isinstance(out, dict) else out,
+                       "expected": {k: ref.get(k) for k in d[:2]}}
+            if sig not in seen and sig not in KNOWN:
+                # minimise (only for findings that will be reported): fewer actors / calls, same located pair
+                try:
+                    p2, m2 = minimise_noncommuting(prog, m, okw)
+                    pair2, _, _ = find_pair(p2, m2, okw, outcome(p2, canonical(p2), okw))
+                    if pair2 == pair:
+                        seen.add(sig)
+                        payload.update({"property": PROP, "seed": seed, "run": run, "signature": sig, "program": p2,
+                                        "merge": m2, "canonical": canonical(p2), "original_calls": res["calls"]})
+                        res["violations"].append({"signature": sig, "payload": payload})
+                        continue
+                except Exception:  # noqa: BLE001
+                    pass
+            add(sig, payload)
         elif e2 is None:
             for name, detail in riders(prog, m, pf2, L, res["stats"]):
                 add(f"{PROP}:rider:{name}:{prog['cls']}:{prog['kind']}",
